@@ -134,6 +134,9 @@ def image_script(prog_ops, sigs, k, j, stats=False):
     rd = []
     for sid in sigs:
         rd.append("rdall %d" % sid)
+        if sigs[sid].get("sdf"):
+            rd.append("stall %d %d" % (sid, sigs[sid]["sdf"]))
+            rd.append("stall %d %d" % (sid, sigs[sid]["sdf"] * sigs[sid]["sumdf"]))
         rd.append("an %d -1000000000000" % sid)
         rd.append("ut %d -1000000000000" % sid)
     rd.append("an 0 -1000000000000")
@@ -167,13 +170,15 @@ def parse_image_result(script, line):
     return r
 
 
-def spec_dump(ctx, prog_ops, sigs, lens):
+def spec_dump(ctx, prog_ops, sigs, lens, stalls=None):
     """ask the model for the prefix content: rd sig 0 len for the lengths the implementation reported, plus full lists"""
     ops = list(prog_ops) + ["wclose", "ropen", "srcs", "sigs"]
     for sid in sigs:
         ops.append("len %d" % sid)
         ln = lens.get(sid, 0)
         ops.append("rd %d 0 %d" % (sid, ln) if ln > 0 else "len %d" % sid)
+        for (incr, count) in (stalls or {}).get(sid, []):
+            ops.append("st %d 0 %d %d" % (sid, incr, count))
         ops.append("an %d -1000000000000" % sid)
         ops.append("ut %d -1000000000000" % sid)
     ops.append("an 0 -1000000000000")
